@@ -16,6 +16,10 @@ ASND = {'test': 'TestVerifAssocSender', 'comp': 'as', 'pairs': True, 'quick': {'
         'thorough': {'VERIF_N': 600, 'VERIF_OPS': 300}, 'seeds': {'quick': 1, 'thorough': 8}}
 
 
+# graceful shutdown, direct drive: two established real associations, model Sd replayed line by line (C08)
+SDD = {'test': 'TestVerifShutdown', 'comp': 'sd', 'quick': {'VERIF_N': 400}, 'thorough': {'VERIF_N': 4000},
+       'seeds': {'quick': 1, 'thorough': 8}, 'corpus_glob': 'sd_*.ops'}
+
 HSD = {'test': 'TestVerifHandshake', 'comp': 'hs', 'quick': {'VERIF_N': 96},
        'thorough': {'VERIF_N': 960}, 'seeds': {'quick': 1, 'thorough': 8}}
 
@@ -63,7 +67,14 @@ PROPS = {
     'C02': {'jobs': [E2E_T, ASND], 'rule': E2E_RULE},
     'C06': {'jobs': [E2E_PR, E2E_T, E2E_API, REASM, ASND], 'rule': E2E_RULE},
     'C07': {'jobs': [E2E_PR, ASND], 'rule': E2E_RULE},
-    'C08': {'jobs': [E2E_SD], 'rule': E2E_RULE},
+    'C08': {'jobs': [SDD, dict(E2E_SD, corpus_glob='e2e_*.ops')], 'assumptions': [
+        'theorems are about the L0 model Sd (two established endpoints + packet histories); the model is replayed line by line against two real established associations (TestVerifShutdown: real readLoop and real Shutdown call, write loop stepped explicitly, timers fired explicitly)',
+        'which DATA chunks a write-loop pass sends (cwnd, rwnd, MTU bundling, burst budget, T3 / fast-retransmit / RACK marks, stream scheduler) is an input of the model, quantified over in the theorems and read off the emitted packets in the replay',
+        'one DATA chunk per message; TSNs and acknowledgement points as offsets from the initial TSN (no wrap-around: C16); receive buffer never full, streams pre-opened, ackMode normal; no ABORT / RECONFIG / FORWARD-TSN / HEARTBEAT traffic',
+        'C08_shutdown_ok_implies_delivered_partial assumes the transport under the caller did not fail: Shutdown also returns nil when the local read loop ends (witness corpus/C08/known/sd_shutdown_nil_on_local_transport_failure.ops)',
+        'liveness theorems are for the explicit schedules named in Props/C08.lean (every message count), not for arbitrary fair schedules; the e2e shutdown scenarios sample the rest under virtual time',
+        'one case (sd job) = one operation sequence from `sd new` to the next; (e2e job) = ' + E2E_RULE,
+    ]},
     'C04': {'jobs': [HSD, E2E_HS, E2E_T], 'assumptions': [
         'theorems are about the L0 model Hs (two endpoints + packet histories); the model is replayed line by line against two real associations driven by a packet shuffler (TestVerifHandshake)',
         'the blocking behaviour of Client/Server calls, T1 retry budget and connect failure are covered by the e2e handshake scenarios and by C19 theorems, not by the Hs model',
